@@ -73,8 +73,57 @@ def probe_mir():
         lock.close()
 
 
+def disambiguate_closures(text):
+    """Every closure the macro generates has the macro call's span, so all of them print as the same type
+    `{closure@src/lib.rs:L:C: L:C}`.  rustc numbers the closures (and async blocks) of an item in source order, and the
+    generated code is straight-line: the k-th closure / coroutine aggregate built in item X is X::{closure#k}.  The closure
+    type at the aggregate and in the child's self parameter is rewritten to a unique text."""
+    lines = text.split('\n')
+    items = []          # (start, end, name, header)
+    i = 0
+    while i < len(lines):
+        ln = lines[i]
+        m = re.match(r'(?:fn|static|const) (.+?)(?:\(| ?: )', ln) if ln[:3] in ('fn ', 'sta', 'con') else None
+        if m and ln.rstrip().endswith('{'):
+            j = i + 1
+            while j < len(lines) and lines[j] != '}':
+                j += 1
+            items.append((i, j, m.group(1).strip(), ln))
+            i = j + 1
+        else:
+            i += 1
+    agg = re.compile(r'= \{(closure|coroutine)@(src/lib\.rs:\d+:\d+: \d+:\d+)[^}]*\}')
+    by_name = {}
+    for it in items:
+        by_name.setdefault(it[2], []).append(it)
+    for (a, b, name, header) in items:
+        name = re.sub(r'::promoted\[\d+\]$', '', name)       # a promoted constant of X builds X's closures
+        k = 0
+        for li in range(a + 1, b):
+            if re.match(r'\s+bb\d+ \(cleanup\)', lines[li]):
+                pass
+            m = agg.search(lines[li])
+            if not m:
+                continue
+            kind, span = m.group(1), m.group(2)
+            idx, k = k, k + 1
+            if kind != 'closure':
+                continue
+            child = [c for c in by_name.get('%s::{closure#%d}' % (name, idx), []) if span in c[3]]
+            if len(child) != 1:
+                raise Inconclusive('macro probe: closure #%d of %s: %d child bodies' % (idx, name, len(child)))
+            new_ty = '{closure@%s @@%s::{closure#%d}}' % (span, name.replace('{', '(').replace('}', ')'), idx)
+            lines[li] = lines[li].replace('{closure@%s}' % span, new_ty, 1)
+            ca = child[0][0]
+            head = lines[ca]
+            # the self parameter of the child: first occurrence of the closure type in its header
+            lines[ca] = head.replace('{closure@%s}' % span, new_ty, 1)
+    return '\n'.join(lines)
+
+
 def load_probe(chk):
     text, meta = probe_mir()
+    text = disambiguate_closures(text)
     saved = dict(mirparse.STATIC_ALLOCS)
     try:
         raw = mirparse.parse_mir(text)
@@ -89,10 +138,28 @@ def load_probe(chk):
             for (_l, pty) in b.params[:1]:
                 mm = re.search(r'@(src/lib\.rs:\d+:\d+: \d+:\d+)', pty)
                 span = mm.group(1) if mm else None
-            nm = name if span is None else '%s@%s' % (name, span)
+            nm = name if span is None else '%s|%s' % (span, name)        # (keeps the `{closure#k}` ending the program index looks at)
             b.name = nm if nm not in bodies else '%s#%d' % (nm, len(bodies))
             bodies.setdefault(b.name, []).append(b)
     return interp.Program(bodies, chk.prog.tables), meta, text
+
+
+
+def initial_future(pb, world_ref, ctx_step, ctx_matches, ctx_whole):
+    """The unresumed state of the async block the wrapper boxes: its captures, placed by the field indices the poll body's
+    debug info gives them (the creating closure only moves them in; rustc's MIR printer drops operands of that aggregate
+    when a variable is captured by parts, so the aggregate text cannot be used)."""
+    fields = {}
+    for nm, place in pb.debug.items():
+        m = re.match(r'\(\(\*_\d+\)\.(\d+): ', place)
+        if not m:
+            continue
+        v = {'__cucumber_world': world_ref, '__cucumber_ctx': ctx_whole, '__cucumber_ctx__step': ctx_step, '__cucumber_ctx__matches': ctx_matches}.get(nm)
+        if v is None:
+            raise Inconclusive('macro probe: unknown capture %s of the generated async block' % nm)
+        fields[(None, int(m.group(1)))] = v
+    span = re.search(r'@(src/lib\.rs:\d+:\d+: \d+:\d+)', pb.params[0][1]).group(1)
+    return Adt('{coroutine@%s}' % span, fields, 0, None)
 
 
 @common.part
@@ -148,10 +215,8 @@ def obligations(chk, prop):
 
         def run(ex_, pb=pb, parent=parent, M=M):
             w = Cell(Lazy('W', 'world'), name='world')
-            clo = Ref(Cell(Adt(parent.params[0][1].strip().lstrip('&'), {}, None, None)), ())
-            pinned = ex_.materialize(ex_.call_body(parent, [clo, Ref(w, ()), Lazy('cucumber::step::Context', 'ctx')]))
-            cell, path = ex_.deref(pinned)
-            pin = Adt('Pin<&mut coroutine>', {(None, 0): Ref(cell, path)})
+            co = initial_future(pb, Ref(w, ()), Lazy('gherkin::Step', 'ctx.step'), Lazy('Vec<..>', 'ctx.matches'), Lazy('cucumber::step::Context', 'ctx'))
+            pin = Adt('Pin<&mut coroutine>', {(None, 0): Ref(Cell(co, name='wrapper future'), ())})
             cx = Ref(Cell(Lazy('Context', 'cx')), ())
             for _ in range(4):
                 r = ex_.call_body(pb, [pin, cx])
@@ -213,3 +278,157 @@ def confirm(chk, o, prop, fnames):
     else:
         o.verdict = 'inconclusive'
         o.detail += ' | not reproduced natively (every Err-returning step function was reported Failed)'
+
+
+# ------------------------------------------------------------------------------------------------ dispatch (C19)
+# probe function -> the captures it declares (in order) and whether a `#[step]` argument follows them
+DISPATCH = {
+    'then_two_args': dict(types=['u64', 'String'], step=False),
+    'given_step_arg': dict(types=['u64'], step=True),
+    'when_async_arg': dict(types=['i32'], step=False),
+}
+
+
+def wrappers(prog2):
+    """user fn name -> (poll body of the generated async block, parent closure body, user fn body)"""
+    out = {}
+    for name, b in prog2.bodies.items():
+        if not (b.params and b.params[0][1].startswith('Pin<&mut {async block@src/lib.rs')):
+            continue
+        src = '\n'.join(b.text)
+        mm = re.search(r'= (\w+)\((?:copy|move) _\d+', src)
+        cands = [x for x in re.findall(r'= (\w+)\((?:copy|move) _\d+', src) if x in prog2.bodies]
+        if not cands:
+            continue
+        span = re.search(r'@(src/lib\.rs:\d+:\d+: \d+:\d+)', b.params[0][1]).group(1)
+        parent = [p for n2, p in prog2.bodies.items() if '{coroutine@%s' % span in '\n'.join(p.text) and p is not b]
+        if len(parent) == 1:
+            out[cands[0]] = (b, parent[0], prog2.bodies[cands[0]])
+    return out
+
+
+@common.part
+def dispatch_obligations(chk, prop):
+    """The wrapper hands the capture groups, parsed with FromStr, to the function in declaration order (then the step for a
+    `#[step]` argument); a capture that does not parse makes the wrapper panic instead of calling the function."""
+    prog2, meta, text = load_probe(chk)
+    ws = wrappers(prog2)
+    CX = chk.prog.tables.struct_fields('step::Context')
+    o = chk.add(Obligation('%s.step-attribute-wrapper.captures-parsed-in-declaration-order-or-panic' % prop,
+                           'the MIR of the wrapper the real attributes generate for %s; capture texts symbolic (unnamed groups), each FromStr::from_str succeeds or fails (symbolic choice)'
+                           % ', '.join(sorted(DISPATCH))))
+    o.verdict = 'holds'
+    bad = []
+    for fname, spec in sorted(DISPATCH.items()):
+        if fname not in ws:
+            raise Inconclusive('macro probe: no wrapper found for %s' % fname)
+        pb, parent, ub = ws[fname]
+        M = models.Models(prog2)
+        ex = interp.Exec(prog2, M, loop_bound=12)
+        chk.execs.append(ex)
+        is_async = 'async fn body' in (ub.ret_type or '')
+        n = len(spec['types'])
+
+        def user_fn(ex_, body, args, M=M, is_async=is_async, ub=ub):
+            ex_.env.setdefault('user_calls', []).append(list(args))
+            rt = (ub.ret_type or '').strip()
+            val = UNIT if (rt == '()' or 'Output = ()' in rt) else Adt('Result<(), E>', {(0, 0): UNIT}, bv(0))
+            if is_async:
+                return M.user_future('step fn', 0, 'ok', value=Adt('Result<(), E>', {(0, 0): UNIT}, bv(0)))
+            return val
+        M.body_hooks[ub.name] = user_fn
+
+        def parse(ex_, info, a, dty, M=M):
+            s_ = M.str_of(ex_, a[0]) if hasattr(M, 'str_of') else ex_.materialize(a[0])
+            nm = s_.name if isinstance(s_, Obj) and s_.kind == 'symstr' else repr(s_)
+            k_ = len(ex_.env.setdefault('parses', []))
+            fails = ex_.branch(z3.Bool('from_str(%s)#%d fails' % (nm, k_)))
+            ex_.env['parses'].append((nm, fails))
+            return Adt(dty or 'Result<T, E>', {(0, 0): Obj('parsed', of=nm, k=k_), (1, 0): Obj('parse_error', of=nm)}, bv(1 if fails else 0))
+        M.table['<impl>::parse'] = parse
+        M.table['str::parse'] = parse
+        M.table['Borrow::borrow'] = lambda ex_, info, a, dty: a[0]        # `impl<T> Borrow<T> for T`: the value itself
+
+        def run(ex_, pb=pb, parent=parent, M=M, n=n):
+            w = Cell(Lazy('W', 'world'), name='world')
+            matches = Obj('vec', items=tuple(Adt('(Option<String>, String)', {(None, 0): Adt('Option<String>', {}, 0), (None, 1): Obj('symstr', name='m%d' % i)})
+                                             for i in range(n + 1)), ty='Vec<(Option<String>, String)>')
+            for i in range(n + 1):
+                ex_.add(z3.Not(z3.Bool('is-empty(m%d)' % i)))        # capture texts are non-empty (an empty capture parses as "")
+            ctx = Adt('cucumber::step::Context', {(None, CX.index('step')): Lazy('gherkin::Step', 'ctx.step'), (None, CX.index('matches')): matches})
+            co = initial_future(pb, Ref(w, ()), ctx.fields[(None, CX.index('step'))], matches, ctx)
+            pin = Adt('Pin<&mut coroutine>', {(None, 0): Ref(Cell(co, name='wrapper future'), ())})
+            cx = Ref(Cell(Lazy('Context', 'cx')), ())
+            for _ in range(4):
+                r = ex_.call_body(pb, [pin, cx])
+                if ex_.branch(M.discr(ex_, r) == bv(0)):
+                    break
+            return {'calls': ex_.env.get('user_calls', []), 'parses': ex_.env.get('parses', [])}
+
+        def describe(ex_, v):
+            v = ex_.materialize(v)
+            for _ in range(4):
+                if isinstance(v, Ref):
+                    v = ex_.materialize(ex_.read_path(v.cell, v.path))
+            if isinstance(v, Obj) and v.kind == 'parsed':
+                return 'parse(%s)' % v.of
+            if isinstance(v, (Lazy, Adt)) and getattr(v, 'name', None):
+                return v.name
+            return repr(v)[:40]
+
+        def on_end(ex_, rec, fname=fname, spec=spec, n=n):
+            kind, res, pc, dec = rec
+            o.paths += 1
+            parses = ex_.env.get('parses', [])
+            failed = [p_ for p_ in parses if p_[1]]
+            if kind == 'panic':
+                if not failed:
+                    bad.append((fname, 'the wrapper panics although every capture parsed: %s' % (res,)))
+                return
+            if kind != 'ok':
+                if o.verdict == 'holds':
+                    o.verdict = 'inconclusive'
+                    o.detail = '%s: %s: %s' % (fname, kind, res)
+                return
+            if failed:
+                bad.append((fname, 'capture %s did not parse, yet the wrapper completed (the function was %s)' % (failed[0][0], 'called' if res['calls'] else 'not called')))
+                return
+            want = ['world'] + ['parse(m%d)' % (i + 1) for i in range(n)] + (['ctx.step'] if spec['step'] else [])
+            got = [[describe(ex_, a_) for a_ in c_] for c_ in res['calls']]
+            if got != [want]:
+                bad.append((fname, 'the function was called with %s, the captures in declaration order are %s' % (got, want)))
+        ex.explore(run, on_end)
+    if bad and o.verdict != 'inconclusive':
+        o.verdict = 'violated'
+        o.detail = '; '.join('%s: %s' % b_ for b_ in bad[:3])
+        o.model = {'functions': sorted(set(b_[0] for b_ in bad))}
+        confirm_dispatch(chk, o, prop)
+    w = chk.add(Obligation('%s.step-attribute-wrapper.dispatch-witness' % prop, 'exploration'))
+    w.kind = 'witness'
+    w.verdict = 'witness-ok' if o.paths >= 2 * len(DISPATCH) else 'witness-missing'
+    w.detail = '%d paths' % o.paths
+    return o
+
+
+def confirm_dispatch(chk, o, prop):
+    from checks import replay
+    d = os.path.join(common.EVID, 'replay')
+    os.makedirs(d, exist_ok=True)
+    path = os.path.join(d, '%s-step-attribute-dispatch.script' % prop)
+    r, out = replay.run_script('mode macros\n', path, timeout=120)
+    chk.replays += 1
+    got = dict(re.findall(r'DISPATCH (\w+) (.*)', out))
+    want = {'then_two_args': 'outcome=passed args=7,seven', 'then_two_args_bad': 'outcome=failed args=-', 'given_step_arg': 'outcome=passed args=5,step arg 5',
+            'when_async_arg': 'outcome=passed args=-3'}
+    if not got:
+        o.verdict = 'inconclusive'
+        o.detail += ' | native replay failed: %s' % out[-300:]
+        return
+    dev = {k: got.get(k) for k in want if got.get(k) != want[k]}
+    if dev:
+        chk.replay_files.append(path)
+        o.replay = path
+        o.detail += ' | reproduced natively through the real attributes and runner: %s (expected %s)' % (dev, {k: want[k] for k in dev})
+    else:
+        o.verdict = 'inconclusive'
+        o.detail += ' | not reproduced natively (the functions received their captures in declaration order, an unparsable capture failed the step)'
